@@ -499,12 +499,14 @@ impl<M: Manager, W: From<Object<M>>> Pool<M, W> {
      * always reports a `max_size` of 0 for closed pools.
      */
     pub fn resize(&self, max_size: usize) {
+        let mut slots = self.inner.slots.lock().unwrap();
         if self.inner.semaphore.is_closed() {
             return;
         }
-        #[cfg(deadpool_verif)]
-        crate::verif::point("resize.lock");
-        let mut slots = self.inner.slots.lock().unwrap();
+        self.resize_locked(&mut slots, max_size);
+    }
+
+    fn resize_locked(&self, slots: &mut Slots<ObjectInner<M>>, max_size: usize) {
         let old_max_size = slots.max_size;
         slots.max_size = max_size;
         // shrink pool
@@ -606,10 +608,9 @@ impl<M: Manager, W: From<Object<M>>> Pool<M, W> {
     ///
     /// This operation resizes the pool to 0.
     pub fn close(&self) {
-        self.resize(0);
-        #[cfg(deadpool_verif)]
-        crate::verif::point("close.sem_close");
+        let mut slots = self.inner.slots.lock().unwrap();
         self.inner.semaphore.close();
+        self.resize_locked(&mut slots, 0);
     }
 
     /// Indicates whether this [`Pool`] has been closed.
